@@ -95,32 +95,30 @@ CLAIMED = {
   "semantics of manual 3.3.8, for every program of a block-structured mini-language and every handler behaviour; tied to golua by event-log correspondence and by "
   "comparing the clpush/cltrunc skeleton of golua's own disassembly with the compile model",
   "Props/C10.lean, re-checked every run: compile_correct (every well-formed program of the mini-language {local <close>, statement, do-block, loop, break, goto out of k blocks, "
-  "return, error, pcall(function), (function)(), yield} compiles, and the close-stack machine running the compiled code logs exactly the handler calls, error arguments and "
+  "return, return f(), error, pcall(function), (function)(), yield; generic for with a closing value as the block the manual describes} compiles, and the close-stack machine running the compiled code logs exactly the handler calls, error arguments and "
   "interleaving with other statements that Spec.Tbc prescribes, for every handler behaviour incl. handlers that raise), coroutine_close_runs_pending (same for a coroutine closed at "
-  "a yield that is not inside a pcall), exactly_once, reverse_order, handler_error_replaces, non_closable_rejected, and the proved counterexample "
-  "coroutine_close_in_pcall_counterexample. Proof in two inductions: Proofs/TbcDyn (static heights = stack sizes at block entry, exact equality of machine states) and "
+  "any yield, also inside nested pcalls), exactly_once, reverse_order, handler_error_replaces, non_closable_rejected, no_tail_call_with_pending "
+  "(getTailCall's refusal: call + return, never a tail call, when a close is pending), tail_call_order, forin_closing_value. Proof in two inductions: Proofs/TbcDyn (static heights = stack sizes at block entry, exact equality of machine states) and "
   "Proofs/TbcSpec (truncate-before-jump / cleanup-only-at-pcall versus block-by-block closing). Correspondence: chains of up to 3 nested constructs x to-be-closed declarations "
   "before/after each construct x every exit kind at every level x raising handlers (always / only without / only with an error in flight), rendered under pcall, as a coroutine "
   "body, with trailing (back) labels and with coroutine.close at a yield, plus random wider programs; golua's event log must equal Spec.Tbc (level A) and Model (level B), and the "
   "clpush/cltrunc h/jump/return skeleton of every function (from golua's disassembler) must equal Model.TbcCompile's.",
   "The theorem is about Model.TbcCompile/Model.TbcVM; that these mirror ir/builder.go, astcomp/compstat.go, luacont.go and thread.go rests on the correspondence (exhaustive to depth 2, "
-  "sampled at depth 3 in thorough; sampled in quick). Control flow itself (jumps landing on the right instruction) is kept structured in the model: C01's subject. Not modelled: the "
-  "tail-call exclusion (getTailCall/HasPendingCloseActions), generic-for closing values, memory/CPU kills inside handlers, multiple <close> names in one local statement. One recorded "
-  "defect: C10-coclose-inside-pcall-discards.", "6/C10, 14/C10"),
+  "sampled at depth 3 in thorough; sampled in quick). Control flow itself (jumps landing on the right instruction) is kept structured in the model: C01's subject. The generic for is modelled as the block the manual "
+  "describes; that ProcessForInStat emits the same skeleton is correspondence. Not modelled: memory/CPU kills inside handlers, multiple <close> names in one local statement. "
+  "One defect found and repaired (3e9e50b, coroutine.close inside pcall).", "6/C10, 14/C10"),
  "C16": ("proof",
   "Lean 4 theorems: the prepfor/advfor mirror built on the comparison functions REGENERATED from runtime/comp.go equals the manual's numeric for (forlimit clipping, precomputed "
   "count, no wrap-around; float loop by repeated exact-rounded addition) + exhaustive lattice-of-triples correspondence through the full pipeline",
-  "Props/C16.lean, re-checked every run over Generated.Comp: int_loop_values_partial (every int64 start, every int64 step /= 0, every non-NaN limit incl. floats beyond the int64 "
-  "range and +-inf: the values the body sees are exactly the manual's), int_loop_terminates (explicit count, no fuel: the start register is the k-th term after k advfor for k < count "
-  "and nil after exactly count), count_le_two64, no_wraparound, count_maximal, float_loop_values_partial (float loops, all non-NaN operands except inf/-inf start/step), "
-  "float_limit_readings_agree, zero_step_error, non_number_error, body_assignment_irrelevant, and the proved counterexamples int_loop_values_nan_counterexample / "
-  "float_loop_nan_counterexample. Correspondence: compiled `for i = a, b, c do emit(i, math.type(i)) end` capped at 40 iterations over the lattice of triples (27 values quick / 69 "
+  "Props/C16.lean, re-checked every run over Generated.Comp: int_loop_values (every int64 start, every int64 step /= 0, every numeric limit incl. floats beyond the int64 "
+  "range, +-inf and NaN: the values the body sees are exactly the manual's), int_loop_terminates (explicit count, no fuel: the start register is the k-th term after k advfor for k < count "
+  "and nil after exactly count), count_le_two64, no_wraparound, count_maximal, float_loop_values (float loops, every triple incl. NaN and inf/-inf), for_loop_values (all numeric triples), "
+  "float_limit_readings_agree, zero_step_error, non_number_error, body_assignment_irrelevant; the only hypothesis left is that floats are genuine doubles (numWF). Correspondence: compiled `for i = a, b, c do emit(i, math.type(i)) end` capped at 40 iterations over the lattice of triples (27 values quick / 69 "
   "thorough: ints around 0, +-2^53, min/maxinteger; floats +-2^63 and neighbours, +-inf, NaN, fractions; numeric strings; non-numbers), exhaustively, as arguments / with the step "
   "omitted / as literals / with the body assigning to the loop variable, plus random triples near start+k*step; level A against Spec.For, level B against Model.For.",
   "Uses Props/C02_Comp (exactness of the regenerated comparisons) and Props/C02_F64. Float addition is the exact model F64.fadd, validated bit for bit against the hardware on every "
   "run. Tolerated where the manual is open: lvm.c's reading for NaN operands in float loops, a float loop with an integer limit beyond 2^53 (exact vs rounded limit), numeric strings "
-  "as initial value/step (integer by syntax vs float). String->number conversion is taken from golua's tonumber (C02). Two recorded defects (NaN limit/operands: C16-nan-limit-int-loop, "
-  "C16-nan-float-loop).", "6/C16, 14/C16"),
+  "as initial value/step (integer by syntax vs float). String->number conversion is taken from golua's tonumber (C02). One defect found and repaired (5163798, NaN limit/operands).", "6/C16, 14/C16"),
  "C18": ("proof",
   "Lean 4 invariant proofs over hand-written state-machine models of clonepool.go and of its call sites + level-A/B "
   "correspondence on the real ClonePool/Runtime through a deterministic Go-finaliser hook + Lua-level logs under the real collector",
